@@ -45,6 +45,7 @@ pub enum Arg {
     Big(BigUint),
     OptBig(Option<BigUint>),
     Terms(Vec<(F, usize)>),
+    Pairs(Vec<(F, F)>),
 }
 
 impl Arg {
@@ -61,6 +62,9 @@ impl Arg {
             Arg::OptBig(Some(b)) => big_hex(b),
             Arg::Terms(t) => {
                 mzkh::join(&t.iter().map(|(c, v)| format!("{}:{}", fe_hex(c), v)).collect::<Vec<_>>())
+            }
+            Arg::Pairs(t) => {
+                mzkh::join(&t.iter().map(|(k, v)| format!("{}:{}", fe_hex(k), fe_hex(v))).collect::<Vec<_>>())
             }
         }
     }
@@ -123,7 +127,7 @@ impl Op {
         match self.name {
             "in" | "inb" | "iny" | "altp2" | "inlf" => 1,
             "ams" | "inmany" | "inbmany" | "inymany" => self.args[0].n() as usize,
-            "vassign" => self.args[2].n() as usize,
+            "vassign" | "vassignf" => self.args[2].n() as usize,
             _ => 0,
         }
     }
@@ -241,8 +245,9 @@ impl Circuit<F> for ProgCircuit {
         let mut vecs: crate::vecops::Vecs = Default::default();
         let vg = midnight_circuits::vec::vector_gadget::VectorGadget::new(&g);
         let mut inputs = self.inputs.iter().copied();
+        let mut map: Option<crate::mapops::ToyMap> = None;
         for o in &self.ops {
-            exec(o, &g, &native_chip, &decomp, &vg, &mut vars, &mut vecs, &mut inputs, &mut layouter)?;
+            exec(o, &g, &native_chip, &decomp, &vg, &mut vars, &mut vecs, &mut map, &mut inputs, &mut layouter)?;
         }
         decomp.load(&mut layouter)?;
         let mut out = Outcome::default();
@@ -322,11 +327,15 @@ pub fn exec(
     vg: &midnight_circuits::vec::vector_gadget::VectorGadget<F>,
     vars: &mut Vec<Var>,
     vecs: &mut crate::vecops::Vecs,
+    map: &mut Option<crate::mapops::ToyMap>,
     inputs: &mut impl Iterator<Item = F>,
     l: &mut impl Layouter<F>,
 ) -> Result<(), Error> {
     let a = &o.args;
     if crate::vecops::exec_vec(o.name, a, vg, vars, vecs, inputs, l)? {
+        return Ok(());
+    }
+    if crate::mapops::exec_map(o.name, a, g, map, vars, l)? {
         return Ok(());
     }
     let mut next_in = || Value::known(inputs.next().expect("not enough inputs"));
